@@ -37,8 +37,13 @@ REGISTRATION = {
             "monitored for recovered panics, process crashes, /api/ps 5xx, /api/ps that never returns and torn /api/ps views.",
     "design_ref": "DESIGN.md §5 C15",
     "note": COMMON_NOTE + "Partial by nature: the theorem is about lock-granularity traces and takes the non-lock "
-            "orderings as named hypotheses (fresh-object publication, atomics/sync.Map, close(done), two accesses before the same "
-            "once-spawn; spawn order pre/post is proved from Go's fork semantics given the meaning of the tags; the "
+            "orderings as named hypotheses (atomics/sync.Map, close(done), two accesses before the same "
+            "once-spawn; spawn order pre/post and fresh-object publication are proved from fork / publish semantics given the "
+            "meaning of the tags (what is left: exemptRest = atomics, pre/pre, holder, doneclose); a mapDelete on a map class with no "
+            "insertion site counts as a read although Go's race detector instruments it as a write (only intermediateBlobs, whose "
+            "delete is dynamically dead); a mutex held through RLock protects reads only; runnerRef.gpus is set to nil by unload but "
+            "left out of the cleared classes as slice-like (a stale reader sees an empty list, not a panic); unloadAllRunners "
+            "closes llama at shutdown without clearing it (no clear event); the "
             "holder ordering is discharged through C01's tie except for F13f); `live`/`valid`/locksets are syntactic "
             "(continuity of a hold is judged on the text); the translator is syntactic (aliasing of "
             "runner variables, accesses through pointers taken with &, state outside the property's anchors are not "
@@ -62,6 +67,9 @@ THEOREMS = [
     "OllamaVerif.Lockset.stale_rule_sound",
     "OllamaVerif.Lockset.desc_after_fork",
     "OllamaVerif.Lockset.fork_tagged_pair_ordered",
+    "OllamaVerif.Lockset.lockset_discipline_race_free_fork",
+    "OllamaVerif.Lockset.init_tagged_pair_ordered",
+    "OllamaVerif.Lockset.lockset_discipline_race_free_ordered",
     "OllamaVerif.Tie.C15.violations_exact",
     "OllamaVerif.Tie.C15.discipline_holds",
     "OllamaVerif.Tie.C15.classes_partition",
@@ -69,6 +77,9 @@ THEOREMS = [
     "OllamaVerif.Tie.C15.bad_classes_known",
     "OllamaVerif.Tie.C15.bad_class_names",
     "OllamaVerif.Tie.C15.race_free_good_classes",
+    "OllamaVerif.Tie.C15.race_free_good_classes_fork",
+    "OllamaVerif.Tie.C15.race_free_good_classes_ordered",
+    "OllamaVerif.Tie.C15.registry_entries_are_open",
     "OllamaVerif.Tie.C15.stale_exact",
     "OllamaVerif.Tie.C15.no_stale_reads",
     "OllamaVerif.Tie.C15.no_use_of_torn_down_runner",
